@@ -62,6 +62,21 @@ THEOREMS = [
     "SynKit.CrnCanon.canonBruteD_sameUpToNames_species",
     "SynKit.CrnCanon.orbitsFast_eq",
     "SynKit.CrnCanon.C18.full",
+    "SynKit.CrnCanon.crn_refine_equivariant",
+    "SynKit.CrnCanon.crn_ir_leaves_equivariant",
+    "SynKit.CrnCanon.crn_ir_result_spec",
+    "SynKit.CrnCanon.crn_ir_fuel_adequate",
+    "SynKit.CrnCanon.crn_ir_tie",
+    "SynKit.CrnCanon.crn_ir_invariant_anyOrder",
+    "SynKit.CrnCanon.crn_ir_invariant",
+    "SynKit.CrnCanon.crn_ir_faithful",
+    "SynKit.CrnCanon.crn_ir_complete",
+    "SynKit.CrnCanon.views_attrOK",
+    "SynKit.CrnCanon.crn_ir_sameUpToNames_bip",
+    "SynKit.CrnCanon.crn_ir_sameUpToNames_species",
+    "SynKit.CrnCanon.crn_ir_orbits_anyOrder",
+    "SynKit.CrnCanon.crn_ir_orbits",
+    "SynKit.CrnCanon.C18.ir_full",
 ]
 
 F19 = "species_label_is_edge_id"
